@@ -27,6 +27,12 @@ func scratchBase() string {
 }
 
 func marshalLine(e E) []byte {
+	// TLC's Json module has no null: a list that a generator left nil is the empty list
+	for k, v := range e {
+		if l, ok := v.([]interface{}); ok && l == nil {
+			e[k] = []interface{}{}
+		}
+	}
 	var buf bytes.Buffer
 	enc := json.NewEncoder(&buf)
 	enc.SetEscapeHTML(false)
